@@ -25,12 +25,29 @@ type c15 struct{ base }
 
 func init() {
 	core.Register(c15{base{id: "C15", race: true, level: "exploration", quickB: 16, thoroughB: 32,
-		rule:        "groups of 2-24 client sessions (different users; typed result tables in text and binary via simple and extended protocol; extended histories over the same statement/portal names; binary COPY-in; failing queries; oversized messages; on half of the groups a server-registered custom type; short-lived CancelRequest / SSLRequest / truncated-startup / empty connections before and during the sessions) (some steps prepare statements over a query text shared by all connections of the group, declared through wire.ParseParameters, with per-connection prespecified parameter types) are first served one at a time on a fresh server (solo reference; repeated in reverse order on another fresh server - the two solo runs must agree) and then all at once on another fresh server, 3 (quick) / 5 (thorough) times with different yield-injection seeds at every transport Read/Write; every connection's per-step reply bytes and callback trace must equal its solo run (ParameterStatus compared as a multiset); the binary runs under the Go race detector and any report with a library frame is a violation. Non-trivial = group whose global event order interleaves at least two connections; distinct = hash of the global (connection, event-kind) order observed.",
-		need:        []string{"groups", "concurrent_sessions", "steps_compared", "distinct_interleavings", "race_detector_active_batches", "custom_type_rows", "copy_sessions", "solo_order_comparisons"},
+		rule:        "groups of 2-24 client sessions (different users; typed result tables in text and binary via simple and extended protocol; extended histories over the same statement/portal names; binary COPY-in; failing queries; oversized messages; on half of the groups a server-registered custom type; a type every connection registers on its own type map in a session middleware, whose codec stamps decoded COPY values with the connection's user; short-lived CancelRequest / SSLRequest / truncated-startup / empty connections before and during the sessions) (some steps prepare statements over a query text shared by all connections of the group, declared through wire.ParseParameters, with per-connection prespecified parameter types) are first served one at a time on a fresh server (solo reference; repeated in reverse order on another fresh server - the two solo runs must agree) and then all at once on another fresh server, 3 (quick) / 5 (thorough) times with different yield-injection seeds at every transport Read/Write; every connection's per-step reply bytes and callback trace must equal its solo run (ParameterStatus compared as a multiset); the binary runs under the Go race detector and any report with a library frame is a violation. Non-trivial = group whose global event order interleaves at least two connections; distinct = hash of the global (connection, event-kind) order observed.",
+		need:        []string{"per_connection_type_values", "groups", "concurrent_sessions", "steps_compared", "distinct_interleavings", "race_detector_active_batches", "custom_type_rows", "copy_sessions", "solo_order_comparisons"},
 		assumptions: append([]string{"handler programs are deterministic functions of the query text, so a connection's solo transcript is the reference for its concurrent transcript"}, commonAssumptions...)}})
 }
 
 const c15customOID = 99001
+
+// c15connOID: a type each connection registers for itself (session middleware, on the connection's own
+// type map) with a codec that stamps decoded values with the connection's user: a value decoded
+// through another connection's map carries the wrong stamp.
+const c15connOID = 99002
+
+type c15connCodec struct {
+	pgtype.TextCodec
+	tag string
+}
+
+func (c c15connCodec) DecodeValue(m *pgtype.Map, oid uint32, format int16, src []byte) (any, error) {
+	if src == nil {
+		return nil, nil
+	}
+	return c.tag + "|" + string(src), nil
+}
 
 type c15session struct {
 	User   string
@@ -162,6 +179,30 @@ func c15genShared(rng *core.Rng, tag string, custom bool, group string) c15sessi
 			s.Kinds = append(s.Kinds, "history")
 		case k < 88: // binary COPY-in
 			t := c14gen(rng, true)
+			if rng.Bool() {
+				// array columns: decoded through the connection's type map (scan plans are memoised there)
+				for n := 1 + rng.Intn(2); n > 0; n-- {
+					ao := core.Pick(rng, arrayOIDs)
+					t.OIDs = append(t.OIDs, ao)
+					for r := range t.Rows {
+						var v any
+						if rng.Intn(4) != 0 {
+							v = genValue(rng, ao)
+						}
+						t.Rows[r] = append(t.Rows[r], v)
+					}
+				}
+			}
+			if group != "" && rng.Bool() {
+				// a column of the type this connection registered for itself
+				t.OIDs = append(t.OIDs, c15connOID)
+				if len(t.Rows) == 0 {
+					t.Rows = append(t.Rows, make([]any, len(t.OIDs)-1))
+				}
+				for r := range t.Rows {
+					t.Rows[r] = append(t.Rows[r], fmt.Sprintf("cv-%s-%d", id, r))
+				}
+			}
 			cols := wire.Columns{}
 			for j, o := range t.OIDs {
 				cols = append(cols, wire.Column{Name: fmt.Sprintf("c%d", j), Oid: oid.Oid(o), Width: -1})
@@ -200,12 +241,14 @@ func c15genShared(rng *core.Rng, tag string, custom bool, group string) c15sessi
 }
 
 type c15result struct {
-	Startup string // normalised startup reply
-	Outs    [][]byte
-	Trace   []string
-	Events  []trEvent
-	Err     string
-	RowErrs []string
+	Startup   string // normalised startup reply
+	Outs      [][]byte
+	Trace     []string
+	Events    []trEvent
+	Err       string
+	RowErrs   []string
+	ConnTyped int    // COPY values decoded through the type the connection registered for itself
+	Foreign   string // ... that carry another connection's stamp
 }
 
 func c15run(env *hs.Env, s c15session, yield func()) (r c15result, cl *hs.Client) {
@@ -272,6 +315,14 @@ func c15run(env *hs.Env, s c15session, yield func()) (r c15result, cl *hs.Client
 		case "copyread":
 			x := e.Data.(hs.CopyRec)
 			r.Trace = append(r.Trace, fmt.Sprintf("copyread:%d:%v:%v:%d", x.Read, x.ErrNil, x.EOF, len(x.Row)))
+			for _, v := range x.Row {
+				if sv, ok := v.(string); ok && strings.Contains(sv, "|cv-") {
+					r.ConnTyped++
+					if !strings.HasPrefix(sv, s.User+"|") && r.Foreign == "" {
+						r.Foreign = fmt.Sprintf("connection of user %q decoded a COPY value as %q", s.User, sv)
+					}
+				}
+			}
 		}
 	}
 	return
@@ -285,6 +336,9 @@ func c15mw() []wire.OptionFn {
 		out = append(out, wire.SessionMiddleware(func(ctx context.Context) (context.Context, error) {
 			if i == 0 && strings.HasPrefix(wire.AuthenticatedUsername(ctx), "reject") {
 				return ctx, errors.New("this user is not welcome")
+			}
+			if m := wire.TypeMap(ctx); i == 1 && m != nil {
+				m.RegisterType(&pgtype.Type{Name: "verifconn", OID: c15connOID, Codec: c15connCodec{tag: wire.AuthenticatedUsername(ctx)}})
 			}
 			hs.ConnOf(ctx).CB("mw", i)
 			return ctx, nil
@@ -342,6 +396,11 @@ func (ch c15) Run(c *core.Ctx) {
 			solo[i], _ = c15run(env, s, nil)
 			if solo[i].Err != "" {
 				c.Violate("solo", "solo run failed: "+solo[i].Err, fmt.Sprintf("group %d session %d", g, i), cs)
+				bad = true
+			}
+			c.Count("per_connection_type_values", int64(solo[i].ConnTyped))
+			if solo[i].Foreign != "" {
+				c.Violate("type-map-isolation", "a value was decoded through another connection's type map (connections served one after another)", solo[i].Foreign, cs)
 				bad = true
 			}
 			for _, e := range solo[i].RowErrs {
@@ -462,6 +521,10 @@ func (ch c15) Run(c *core.Ctx) {
 			for i := range res {
 				if res[i].Err != "" {
 					c.Violate("concurrent-run", "concurrent run failed: "+res[i].Err, fmt.Sprintf("group %d session %d", g, i), cs)
+					continue
+				}
+				if res[i].Foreign != "" {
+					c.Violate("type-map-isolation", "a value was decoded through another connection's type map", res[i].Foreign, cs)
 					continue
 				}
 				if strings.HasPrefix(sessions[i].User, "reject") {
